@@ -39,6 +39,8 @@ def gen_plan(rng, tier, config, opts):
     lines.append('ENTROPY ' + rng.bytes(20).hex())
     names = [n for n, s in SCHEMES.items() if want not in ('C05', 'C06') or s.prop == want]
     profile = rng.weighted([('rsa', 14), ('pairing', 46), ('plain', 40)])
+    if config in ('Apkcs1', 'Abasic', 'Anocrt'):
+        profile = 'rsa'                 # these configurations differ from A only in the RSA code
     if config == 'A381':
         curve = 'B12_P381'
         profile = 'pairing' if profile != 'rsa' else 'rsa'
@@ -360,7 +362,7 @@ def o_rsasig(s, ctx, v, out):
     elif pad == 'PKCS1':
         exp = models.rsa_pkcs1_sig_verify(k['n'], k['e'], mhash, sig)
     else:
-        exp = None
+        exp = models.rsa_basic_sig_verify(k['n'], k['e'], mhash, sig)
     if exp is None:
         changed = s.changed('sig') or s.changed('msg')
         if not changed and not got:
@@ -400,11 +402,16 @@ def o_rsaenc(s, ctx, v, out):
     elif pad == 'PKCS1':
         exp = models.rsa_pkcs1_decrypt(k['n'], k['d'], ct)
     else:
-        exp = 'skip'
+        exp = models.rsa_basic_decrypt(k['n'], k['d'], ct)
     out.keys.add(('rsaenc', tuple(s.faults()), rc, min(len(s.msg), 200), s.opts.get('mkind')))
     if exp == 'skip':
         if not s.faults() and (rc != '0' or s.out.get('pt') != s.msg):
             v.bad('roundtrip', 'decryption of an honest ciphertext did not return the plaintext')
+        return
+    if exp == b'':
+        # relic does not admit empty plaintexts at encryption; whether an encoding of the empty message
+        # decrypts to nothing or to an error is not decided by the property
+        out.probe('empty-plaintext-encoding')
         return
     if exp is None:
         out.fault('invalid-ciphertext')
@@ -472,6 +479,11 @@ def o_ecmqv(s, ctx, v, out):
         Q2 = cv.decode_uncompressed(unhex(s.m[f2]['val']))
         if Q1 is None or Q2 is None or not cv.on_curve(Q1) or not cv.on_curve(Q2):
             continue            # degenerate peer values: nothing asserted
+        if cv.h != 1 and (s.changed(f1) or s.changed(f2)) and (cv.mul(n, Q1) is not None or cv.mul(n, Q2) is not None):
+            # a peer value outside the prime-order subgroup (curves with a cofactor): the protocol's value
+            # is defined for subgroup elements only; nothing asserted beyond termination
+            out.probe('peer-value-outside-subgroup')
+            continue
         own = cv.mul(s.key[d2], cv.G)
         sig = (xbar(own) * s.key[d1] + s.key[d2]) % n
         P = cv.add(cv.mul(sig, Q2), cv.mul(xbar(Q2) * sig % n, Q1))
